@@ -28,6 +28,7 @@ type c10Op struct {
 	// session: the client connects again (a new connection, the server refuses to resume the old session) and
 	// the server's <enabled/> carries this resume attribute (spellings as c10In.Resume)
 	Resume string `json:"resume,omitempty"`
+	NoID   bool   `json:"noid,omitempty"` // session: that <enabled/> carries no id (the id is only needed for resumption)
 }
 type c10In struct {
 	Ops        []c10Op `json:"ops"`
@@ -35,6 +36,7 @@ type c10In struct {
 	Stall      []int   `json:"stall,omitempty"`      // acknowledgements h1,h2,... arriving (each on its own goroutine, as Client.recv routes them) while the retransmission triggered by <a h='0'/> is stalled in a blocking write; Ops are the sends made before
 	Connect    bool    `json:"connect,omitempty"`    // the session is negotiated by the real Client.Connect (scripted server on the stub): its initial <presence/>, written after <enabled/>, is the first stanza of the session
 	Race       int     `json:"race,omitempty"`       // 1,2: two senders A, B; A's write is stalled by the transport, B is started meanwhile, then A goes on (1: A=SendRaw B=Send, 2: A=Send B=SendRaw); ops follow
+	NoID       bool    `json:"noid,omitempty"`       // the first session has no stream-management id: Connect: its <enabled/> carries none; otherwise the installed state has none
 	Resume     string  `json:"resume,omitempty"`     // Connect: the resume attribute of the server's <enabled/>: "" = resume='true', "-" = no attribute, "empty" = resume='', anything else = that value
 }
 
@@ -78,7 +80,7 @@ func (c10) RunFn() string { return "run_C10" }
 func (c10) Workers() int  { return 8 }
 func (c10) Journal() bool { return true }
 func (c10) Rule() string {
-	return "random histories (0-40 ops) over Send(stanza), Send(<r/>), Send(<a/>) by value and by pointer, the server's <r/> answered by the real receive loop, SendRaw(stanza string), SendRaw of a raw stream-management <r/> or <a/> (several spellings), sends whose write the transport refuses, and server <a h/> with h below, equal to, above the number sent, stale, repeated and beyond the signed range (h is unsigned on the wire) through the real Client.Send/SendRaw and Router.route(SMAnswer) on a recording transport, a sixth of them on a session negotiated by the real Client.Connect (its initial presence is the first stanza of the session) with the server's <enabled/> carrying resume='true', other spellings of true, false, no attribute or garbage (whether resumption is granted makes no difference: stream management is active and every stanza is held), acknowledgements whose retransmission is cut short by a refused write at every position (what was not written stays held, no <r/>), and new connections of the same client in the middle of a history (the old session is not resumed: a new session, numbered from 1, holding whatever this or any earlier <enabled/> said about resumption); after every op the queue (ids, payloads) and the bytes written are compared; plus concurrent senders (8 goroutines) and two senders of which the first is stalled by the transport between numbering and writing (the sequence numbers must follow the order on the wire), followed by acknowledgements, and acknowledgements piling up on their own goroutines behind a retransmission stalled in a blocking write (only what is held afterwards is compared); distinct = op-kind/h-class sequence; non-trivial = at least one ack with stanzas held"
+	return "random histories (0-40 ops) over Send(stanza), Send(<r/>), Send(<a/>) by value and by pointer, the server's <r/> answered by the real receive loop, SendRaw(stanza string), SendRaw of a raw stream-management <r/> or <a/> (several spellings), sends whose write the transport refuses, and server <a h/> with h below, equal to, above the number sent, stale, repeated and beyond the signed range (h is unsigned on the wire) through the real Client.Send/SendRaw and Router.route(SMAnswer) on a recording transport, a sixth of them on a session negotiated by the real Client.Connect (its initial presence is the first stanza of the session) with the server's <enabled/> carrying resume='true', other spellings of true, false, no attribute or garbage (whether resumption is granted makes no difference: stream management is active and every stanza is held), acknowledgements whose retransmission is cut short by a refused write at every position (what was not written stays held, no <r/>), and new connections of the same client in the middle of a history, up to three, after sessions that had a stream-management id (resumption is tried and refused) and after sessions whose <enabled/> carried none (nothing to resume with) (the old session is not resumed: a new session, numbered from 1, holding whatever this or any earlier <enabled/> said about resumption); after every op the queue (ids, payloads) and the bytes written are compared; plus concurrent senders (8 goroutines) and two senders of which the first is stalled by the transport between numbering and writing (the sequence numbers must follow the order on the wire), followed by acknowledgements, and acknowledgements piling up on their own goroutines behind a retransmission stalled in a blocking write (only what is held afterwards is compared); distinct = op-kind/h-class sequence; non-trivial = at least one ack with stanzas held"
 }
 
 func (c10) Decode(raw json.RawMessage) (interface{}, error) {
@@ -126,6 +128,11 @@ func c10Witnesses() []interface{} {
 		// a new connection in the middle: a new session numbered from 1; once resumption was not granted nothing is held any more
 		c10In{Ops: []c10Op{m("m1"), m("m2"), {Op: "session", Resume: "true"}, m("m3"), {Op: "ack", H: 0}, {Op: "session", Resume: "-"}, m("m4"), {Op: "ack", H: 0}, {Op: "session", Resume: "true"}, m("m5"), {Op: "ack", H: 0}}},
 		c10In{Connect: true, Ops: []c10Op{m("m1"), {Op: "session"}, {Op: "ack", H: 1}, m("m2"), {Op: "send", Kind: 1}, {Op: "ack", H: 0}}},
+		// sessions without a stream-management id (nothing to resume with): the next session of the client is still a new one,
+		// numbered from 1, holding nothing of the one before
+		c10In{Connect: true, NoID: true, Resume: "-", Ops: []c10Op{m("m1"), {Op: "ack", H: 2}, {Op: "session", NoID: true, Resume: "-"}, m("m2"), {Op: "ack", H: 1}}},
+		c10In{Connect: true, NoID: true, Ops: []c10Op{m("m1"), m("m2"), {Op: "session"}, m("m3"), {Op: "ack", H: 0}, {Op: "ack", H: 1}}},
+		c10In{NoID: true, Ops: []c10Op{m("m1"), {Op: "session", NoID: true}, m("m2"), {Op: "session", NoID: true, Resume: "false"}, m("m3"), m("m4"), {Op: "ack", H: 1}, {Op: "session"}, m("m5"), {Op: "ack", H: 1}}},
 	}
 }
 
@@ -157,8 +164,11 @@ func (c10) Gen(r *rand.Rand, tier string) []interface{} {
 			sent = 1
 		}
 		sessions := 0
-		if r.Intn(5) == 0 {
-			sessions = 1 + r.Intn(2)
+		if r.Intn(4) == 0 {
+			sessions = 1 + r.Intn(3)
+			in.NoID = r.Intn(2) == 0
+		} else if in.Connect {
+			in.NoID = r.Intn(4) == 0
 		}
 		ops := make([]c10Op, 0, l)
 		for j := 0; j < l; j++ {
@@ -169,6 +179,7 @@ func (c10) Gen(r *rand.Rand, tier string) []interface{} {
 				if r.Intn(2) == 0 {
 					o.Resume = ""
 				}
+				o.NoID = r.Intn(2) == 0
 				ops = append(ops, o)
 				sent = 0
 				continue
@@ -268,7 +279,7 @@ func (c10) Gen(r *rand.Rand, tier string) []interface{} {
 // the server side of a negotiation with stream management, all of it readable at once (the client reads what it needs).
 // refusedResume: the client asks to resume an earlier session first and is refused; enabled: the client asks for stream
 // management and gets <enabled/> with this resume attribute.
-func c10Negotiation(refusedResume, enabled bool, resume string) string {
+func c10Negotiation(refusedResume, enabled bool, resume string, noID bool) string {
 	s := clientHeader +
 		"<stream:features><mechanisms xmlns='urn:ietf:params:xml:ns:xmpp-sasl'><mechanism>PLAIN</mechanism></mechanisms></stream:features>" +
 		"<success xmlns='urn:ietf:params:xml:ns:xmpp-sasl'/>" +
@@ -279,7 +290,11 @@ func c10Negotiation(refusedResume, enabled bool, resume string) string {
 	}
 	s += "<iq type='result' id='1'><bind xmlns='urn:ietf:params:xml:ns:xmpp-bind'><jid>u@localhost/r</jid></bind></iq>"
 	if enabled {
-		s += "<enabled xmlns='urn:xmpp:sm:3' id='sm'" + c10ResumeAttr(resume) + "/>"
+		id := " id='sm'"
+		if noID {
+			id = ""
+		}
+		s += "<enabled xmlns='urn:xmpp:sm:3'" + id + c10ResumeAttr(resume) + "/>"
 	}
 	return s
 }
@@ -287,10 +302,10 @@ func c10Negotiation(refusedResume, enabled bool, resume string) string {
 // c10Client: a client on the recording stub with stream management active. connect=false: the session is installed
 // through the hooks and the real receive loop started; connect=true: the public Client.Connect negotiates it (and
 // starts the receive loop itself). skip = number of writes that belong to the negotiation (up to <enable/>).
-func c10Client(connect bool, resume string) (c *xmpp.Client, st *stubTransport, router *xmpp.Router, skip int, err error) {
+func c10Client(connect bool, resume string, noID bool) (c *xmpp.Client, st *stubTransport, router *xmpp.Router, skip int, err error) {
 	script := clientHeader
 	if connect {
-		script = c10Negotiation(false, true, resume)
+		script = c10Negotiation(false, true, resume, noID)
 	}
 	st = newStub([][]byte{[]byte(script)}, nil)
 	st.feed = make(chan []byte, 4)
@@ -316,7 +331,11 @@ func c10Client(connect bool, resume string) (c *xmpp.Client, st *stubTransport, 
 		}
 		return
 	}
-	xmpp.VerifSetSession(c, xmpp.SMState{Id: "sm", UnAckQueue: stanza.NewUnAckQueue()})
+	smID := "sm"
+	if noID {
+		smID = ""
+	}
+	xmpp.VerifSetSession(c, xmpp.SMState{Id: smID, UnAckQueue: stanza.NewUnAckQueue()})
 	st.StartStream()
 	st.mu.Lock()
 	st.writes, st.nwrites = nil, 0
@@ -340,8 +359,8 @@ func c10AfterEnable(st *stubTransport) (skip int) {
 // bound to the new transport). The server offers stream management, refuses to resume the session the client still
 // has an id of, binds, and - when the harness expects the client to ask (wantEnable) - answers <enable/> with
 // <enabled/> carrying the given resume attribute. The real receive loop is started on the new connection.
-func c10NewSession(c *xmpp.Client, hadID, wantEnable bool, resume string) (st *stubTransport, skip int, err error) {
-	st = newStub([][]byte{[]byte(c10Negotiation(hadID, wantEnable, resume))}, nil)
+func c10NewSession(c *xmpp.Client, hadID, wantEnable bool, resume string, noID bool) (st *stubTransport, skip int, err error) {
+	st = newStub([][]byte{[]byte(c10Negotiation(hadID, wantEnable, resume, noID))}, nil)
 	st.feed = make(chan []byte, 4)
 	old := c.Session.SMState
 	xmpp.VerifSetTransport(c, st)
@@ -430,7 +449,7 @@ func c10Canon(s string) string { return canonOrRaw(s) }
 // pushes are observed as one step: the writes in the order the transport received them, the queue afterwards.
 func (c10) Run(inp interface{}) Sx {
 	in := inp.(c10In)
-	c, st, router, seen, err := c10Client(in.Connect, in.Resume)
+	c, st, router, seen, err := c10Client(in.Connect, in.Resume, in.NoID)
 	feeds := []chan []byte{st.feed}
 	closeFeeds := func() {
 		if c.Session == nil {
@@ -448,7 +467,9 @@ func (c10) Run(inp interface{}) Sx {
 	}
 	// the harness's own account of what the client must be doing (for the scripts of later connections only): it is
 	// configured with stream management, so it asks for it on every connection, after trying to resume the session it has an id of
-	const holding, hadID = true, true
+	// (only a session that has an id: without one there is nothing to resume with and the client binds at once)
+	const holding = true
+	hadID := !in.NoID
 	var steps []Sx
 	snapshot := func() Sx {
 		ws := st.snapshotWrites()
@@ -577,7 +598,7 @@ func (c10) Run(inp interface{}) Sx {
 				closeFeeds()
 				return L(SBytes("setup-failed"), SBytes("the receive loop does not answer"))
 			}
-			st2, skip, err := c10NewSession(c, hadID, holding, o.Resume)
+			st2, skip, err := c10NewSession(c, hadID, holding, o.Resume, o.NoID)
 			if st2.feed != nil {
 				feeds = append(feeds, st2.feed)
 			}
@@ -585,6 +606,7 @@ func (c10) Run(inp interface{}) Sx {
 				closeFeeds()
 				return L(SBytes("setup-failed"), SBytes("new connection: "+err.Error()))
 			}
+			hadID = !o.NoID
 			st, seen = st2, skip
 		case "peer_r":
 			// the server asks for an acknowledgement: Client.recv writes <a/> through Client.Send
@@ -952,7 +974,8 @@ func (c10) Oracle(inp interface{}, obs Sx) (string, string) {
 func (c10) Key(inp interface{}) (string, bool) {
 	in := inp.(c10In)
 	var b strings.Builder
-	fmt.Fprintf(&b, "c%d r%d k%v%s st%v:", in.Concurrent, in.Race, in.Connect, in.Resume, in.Stall)
+	fmt.Fprintf(&b, "c%d r%d k%v%s%v st%v:", in.Concurrent, in.Race, in.Connect, in.Resume, in.NoID, in.Stall)
+	lastNoID := in.NoID
 	ungranted := in.Connect && !c10Granted(in.Resume)
 	if in.Connect {
 		hist(fmt.Sprintf("session:Connect resume=%q granted=%v", in.Resume, !ungranted))
@@ -1008,8 +1031,9 @@ func (c10) Key(inp interface{}) (string, bool) {
 			g := c10Granted(o.Resume)
 			ungranted = ungranted || !g
 			sent, acked = 0, 0
-			fmt.Fprintf(&b, "S%v", g)
-			hist(fmt.Sprintf("op:session granted=%v", g))
+			fmt.Fprintf(&b, "S%v%v", g, o.NoID)
+			hist(fmt.Sprintf("op:session granted=%v after-session-with-id=%v", g, !lastNoID))
+			lastNoID = o.NoID
 		case "ack":
 			cls := "<"
 			switch {
